@@ -258,7 +258,12 @@ c05_env(T0N_CTXT *c)
 	c05_anchor(&c05_ta[0], c05_ta_dn, sizeof c05_ta_dn, 0);
 	c05_anchor(&c05_ta_dyn, c05_ta_dyn_dn, sizeof c05_ta_dyn_dn, 1);
 	c->trust_anchors = c05_ta;
-	c->trust_anchors_num = ND_U8() & 1;
+	/* concrete anchor count (a symbolic count makes symbolic execution unroll the anchor loop, and the
+	   key comparison loops inside it, up to the unwinding bound: measured 200 s instead of 10 s) */
+#ifndef C05_NUM_TA
+#define C05_NUM_TA 1
+#endif
+	c->trust_anchors_num = C05_NUM_TA;
 	if (ND_U8() & 1) { c->trust_anchor_dynamic = c05_dyn; } else { c->trust_anchor_dynamic = 0; }
 #ifdef C05_ONLY_STATIC_ANCHOR
 	c->trust_anchor_dynamic = 0;
